@@ -255,7 +255,12 @@ type reqModel struct {
 	clConflict bool
 	clValue    string
 	teBad      bool
-	noHost     bool // the request has no Host (HTTP/1.0 read from a tunnel): the host is the URL's
+	// selfInComment: no member names this instance as received-by, but some
+	// member's comment carries its pseudonym. The statement only says when a
+	// request MUST be refused; whether such a mention "names this instance" is
+	// open, so refusing (400, not forwarded) and forwarding are both accepted.
+	selfInComment bool
+	noHost        bool // the request has no Host (HTTP/1.0 read from a tunnel): the host is the URL's
 }
 
 func modelRequest(c Case, subst func(string) string, self string) reqModel {
@@ -265,6 +270,9 @@ func modelRequest(c Case, subst func(string) string, self string) reqModel {
 	m.viaPrev = flatten(m.in["Via"])
 	for i, l := range m.in["Via"] {
 		for _, e := range flatten([]string{l}) {
+			if !namesSelf(e, self) && strings.Contains(e, self) && !strings.Contains(stripComments(e), self) {
+				m.selfInComment = true
+			}
 			if namesSelf(e, self) {
 				m.loop = true
 				if i == 0 {
@@ -424,21 +432,6 @@ func checkVia(m reqModel, out []string, stamp, self, where string, v *kit.Verdic
 	}
 }
 
-// falseLoopShape: the one known way to a false loop is a comment that mentions
-// this instance after a comma ("1.1 fred (seen, 1.1 martian-b earlier)"), which
-// a comma split that ignores comments turns into an element of its own.
-func falseLoopShape(m reqModel, self string) string {
-	for _, l := range m.in["Via"] {
-		for _, frag := range strings.Split(l, ",") {
-			f := strings.FieldsFunc(frag, func(r rune) bool { return r == ' ' || r == '\t' })
-			if len(f) >= 2 && f[1] == self {
-				return "self-mentioned-in-comment-after-comma"
-			}
-		}
-	}
-	return "no-self-entry"
-}
-
 func loopShape(m reqModel) string {
 	switch {
 	case m.hop["Via"]:
@@ -540,6 +533,11 @@ func runInproc(c Case) kit.Verdict {
 	armed = true
 	rerr := stack.ModifyRequest(req)
 	skip := ctx.SkippingRoundTrip()
+	if !m.loop && m.selfInComment && rerr != nil && skip {
+		// don't-care: the stack chose to treat the mention as a loop; from here on
+		// the exchange is judged as a refused one (it must then be answered 400)
+		m.loop, m.loopFirst = true, true
+	}
 	loopDetected := m.loop && rerr != nil && skip
 
 	// --- error / loop clauses
@@ -547,7 +545,7 @@ func runInproc(c Case) kit.Verdict {
 		v.Addf("C14/loop/"+loopShape(m)+"/not-detected", "Via lines %q name this instance (%s) but ModifyRequest returned %v, skip-round-trip=%v", m.in["Via"], self, rerr, skip)
 	}
 	if !m.loop && skip {
-		v.Addf("C14/loop/"+falseLoopShape(m, self)+"/false-loop", "Via lines %q do not name this instance (%s) but the round trip is skipped (error %v)", m.in["Via"], self, rerr)
+		v.Addf("C14/loop/no-self-entry/false-loop", "Via lines %q do not name this instance (%s) but the round trip is skipped (error %v)", m.in["Via"], self, rerr)
 		return v // everything else on this request is a consequence
 	}
 	if m.clConflict && rerr == nil {
@@ -1045,7 +1043,7 @@ func classes(c Case) []string {
 			seenQuotedOpen = seenQuotedOpen || strings.Contains(c, `\(`)
 		}
 	}
-	add(!m.loop && falseLoopShape(m, "\x00SELF") != "no-self-entry", "via-self-mentioned-in-comment")
+	add(!m.loop && m.selfInComment, "via-self-mentioned-in-comment")
 	add(commentComplex, "via-comment-with-comma-nesting-or-quoted-pair")
 	add(quotedOpenBeforeSelf, "via-quoted-open-paren-before-self")
 	nearMiss := false
